@@ -88,6 +88,7 @@ var sharedRules = map[string][]struct{ as, from, rule, why string }{
 	"C09": {
 		{"C09-S1", "C16", "C16-R11", "an entry keyed by the empty identifier is refused by every receiver"},
 		{"C09-S2", "C17", "C17-R4", "a filter without its mount-point level makes the mutator panic between write and broadcast"},
+		{"C09-S3", "C08", "C08-R9", "a local update whose stamp is not newer than the entry it replaces is dropped by every receiver as not newer: the change never leaves the node"},
 	},
 	"C10": {
 		{"C10-S1", "C16", "C16-R11", "an entry keyed by the empty identifier makes the receiver drop the rest of the snapshot"},
@@ -99,6 +100,7 @@ var sharedRules = map[string][]struct{ as, from, rule, why string }{
 		{"C11-S3", "C08", "C08-R6", "removed records are never listed"},
 		{"C11-S4", "C17", "C17-R3", "the teardown finds its own record by mount point and client identifier"},
 		{"C11-S5", "C12", "C12-R1", "displacement ends the earlier session: its record leaves every node's view only if the take-over deletes that very record"},
+		{"C11-S6", "C09", "C09-R4", "the removal broadcast of a lost peer's subscriptions must carry each tombstone, not N pointers to the last one"},
 	},
 	"C12": {
 		{"C12-S1", "C08", "C08-R3", "the displaced record's removal and the new record must both survive the merge"},
